@@ -1,7 +1,27 @@
 package repository
 
+import "github.com/MichaelMure/git-bug/util/lamport"
+
 // VHListCommits exposes the real nonNativeListCommits (used by GoGitRepo and mockRepo)
 // to the model repository of the /verif harnesses. Overlay only.
 func VHListCommits(repo RepoData, ref string) ([]Hash, error) {
 	return nonNativeListCommits(repo, ref)
+}
+
+// VHNewClockRepo builds a GoGitRepo value with only the fields its clock methods touch
+// (clocks, localStorage), so that the model repository runs the real getClock /
+// GetOrCreateClock / Increment / Witness code over the model filesystem.
+func VHNewClockRepo(storage LocalStorage) *GoGitRepo {
+	return &GoGitRepo{
+		clocks:       make(map[string]lamport.Clock),
+		localStorage: storage,
+	}
+}
+
+// VHGetClock exposes the unexported getClock (used by OpenGoGitRepo to decide whether
+// the clock loaders must run).
+func (repo *GoGitRepo) VHGetClock(name string) (lamport.Clock, error) {
+	repo.clocksMutex.Lock()
+	defer repo.clocksMutex.Unlock()
+	return repo.getClock(name)
 }
